@@ -147,6 +147,8 @@ def ex(n, s, cx):
         nm = callee.get("referencedDecl", {}).get("name")
         if nm == "max" and len(n["inner"]) == 1:
             return str(A.type_max(A.ty(n)))
+        if nm == "__builtin_expect" and len(n["inner"]) == 3:   # AMC_UNLIKELY(c)
+            return ex(n["inner"][1], s, cx)
         raise U("call %s in an expression" % nm)
     if k == "CXXDefaultArgExpr":
         d = getattr(cx, "current_defaults", None)
@@ -404,6 +406,8 @@ class Gen:
             return "Some " + s.tup(self.two, final=True)
         if is_assert(h):
             return self.block(rest, s)
+        if k == "CXXThrowExpr" or (k == "ExprWithCleanups" and strip(h)["kind"] == "CXXThrowExpr") or strip(h)["kind"] == "CXXThrowExpr":
+            return "None"
         if k == "CXXTryStmt":
             # handlers of these functions destroy a temporary and rethrow: the exceptional outcome is None either way
             for hd in h["inner"][1:]:
